@@ -17,7 +17,7 @@
 //!     --scale: scale-equivariant concretisation (DESIGN 5.5): prices and fees x 10^+-6 (p6/pm6)
 //!     or quantities and fees x 10^+-6 (q6/qm6); the expectations are rescaled the same way.
 //!
-//! `random --seed S --steps N --out trace.ndjson --mode state|engine`
+//! `random --seed S --steps N --out trace.ndjson --mode state|engine [--nonpos-fills 1]`
 //!     Pattern A: seeded random interleavings of fills, public trades and L1 updates with stale,
 //!     duplicate and reordered exchange times on two instruments; one NDJSON line per call with
 //!     the projected position in integer milli-units. `Trace_Position.tla` is the oracle.
@@ -321,10 +321,11 @@ fn mk_market(i: usize, kind: &str, t: i64, p: Decimal, variant: u64) -> Mk {
         }),
         "l1" => {
             let one = Decimal::ONE;
+            // p may be zero or negative (spreads, sub-zero futures): every shape has mid exactly p
             let (bid, ask) = match variant % 3 {
-                1 if p > one => (Level::new(p - one, Decimal::TWO), Level::new(p + one, Decimal::TWO)),
+                1 => (Level::new(p - one, Decimal::TWO), Level::new(p + one, Decimal::TWO)),
                 // (p-1)*3 + (p+3)*1 = 4p : weighted by the opposite amounts
-                2 if p > one => (Level::new(p - one, one), Level::new(p + Decimal::from(3), Decimal::from(3))),
+                2 => (Level::new(p - one, one), Level::new(p + Decimal::from(3), Decimal::from(3))),
                 _ => (Level::new(p, one), Level::new(p, Decimal::from(5))),
             };
             DataKind::OrderBookL1(OrderBookL1 { last_update_time: time(t), best_bid: Some(bid), best_ask: Some(ask) })
@@ -619,6 +620,8 @@ fn cmd_random(a: &Args) {
     let seed = a.u64("seed", 1);
     let steps = a.usize("steps", 2000);
     let mode = a.str("mode", "engine");
+    // C15 only: fills at zero / negative prices too (C02 quantifies over price > 0)
+    let nonpos_fills = a.u64("nonpos-fills", 0) == 1;
     let mut rng = rng(seed ^ 0xC02C15);
     let mut out = Out::create(a.req("out"));
     let instrs = [0usize, 3usize]; // one per exchange
@@ -643,7 +646,26 @@ fn cmd_random(a: &Args) {
             now = now.max(t);
             if rng.random_range(0..5) < 2 && nfill[i] < 4 {
                 let side = if rng.random_bool(0.5) { Side::Buy } else { Side::Sell };
-                let (p, q, fee) = (rng.random_range(1..=20i64), rng.random_range(1..=4i64), rng.random_range(0..=2i64));
+                let (mut p, q, fee) = (rng.random_range(1..=20i64), rng.random_range(1..=4i64), rng.random_range(0..=2i64));
+                {
+                    // a fill at a zero / negative price only where it increases or reduces the open position;
+                    // never let the average entry price become exactly 0 (see Gen_Position.tla, SafePrice)
+                    let cur = rec.sut.position(i);
+                    let increase = cur.is_some_and(|c| c.side == side);
+                    let reduce = cur.is_some_and(|c| c.side != side && c.quantity_abs > dec(q));
+                    let avg_zero = |x: i64| {
+                        increase && cur.is_some_and(|c| (c.price_entry_average * c.quantity_abs + dec(x) * dec(q)).is_zero())
+                    };
+                    if nonpos_fills && (increase || reduce) && rng.random_range(0..4) == 0 {
+                        let np = rng.random_range(-5..=0i64);
+                        if !avg_zero(np) {
+                            p = np;
+                        }
+                    }
+                    while avg_zero(p) {
+                        p += 1;
+                    }
+                }
                 nfill[i] += 1;
                 rec.fill(i, next_id, t, side, p, q, fee, &mut out);
                 next_id += 1;
@@ -651,7 +673,9 @@ fn cmd_random(a: &Args) {
             } else {
                 let kind = if rng.random_bool(0.5) { "trade" } else { "l1" };
                 let newer = t > rec.tfill[i];
-                let act = rec.market(i, kind, t, rng.random_range(1..=20i64), k as u64 + seed, &mut out);
+                // market prices include zero and negative ones ("any market event that yields a price")
+                let mp = if rng.random_range(0..4) == 0 { rng.random_range(-5..=0i64) } else { rng.random_range(1..=20i64) };
+                let act = rec.market(i, kind, t, mp, k as u64 + seed, &mut out);
                 *arms.entry(format!("{act}/{kind}/{}", if newer { "newer" } else { "stale" })).or_default() += 1;
             }
             done += 1;
